@@ -1,0 +1,830 @@
+//go:build verif
+
+package ecs
+
+// Verification hooks. Compiled only with build tag `verif`.
+//
+// Nothing in this file changes behaviour: it provides a canonical dump of the complete
+// world state (VerifShape), a structural invariant checker (VerifCheckInvariants),
+// and a memory-operation trace hook (VerifSetMemHook) used by an external model checker.
+
+import (
+	"encoding/binary"
+	"fmt"
+	"reflect"
+	"sort"
+	"unsafe"
+)
+
+// VerifMemOp describes one memory operation on component storage.
+type VerifMemOp struct {
+	Kind string // "rawcopy", "rawzero", "typedcopy", "typedzero"
+	Site string // calling function
+	Dst  unsafe.Pointer
+	Src  unsafe.Pointer
+	Size uint32
+}
+
+var verifMemHook func(op VerifMemOp)
+
+// VerifSetMemHook installs a hook that is called for every raw memory copy
+// performed on archetype storage. Pass nil to remove it. Not safe for concurrent use.
+func VerifSetMemHook(f func(op VerifMemOp)) {
+	verifMemHook = f
+}
+
+func verifOnCopy(a *archetype, src, dst unsafe.Pointer, size uint32) {
+	if verifMemHook == nil {
+		return
+	}
+	kind := "rawcopy"
+	if a != nil && a.node != nil && src == a.node.zeroPointer {
+		kind = "rawzero"
+	}
+	verifMemHook(VerifMemOp{Kind: kind, Dst: dst, Src: src, Size: size})
+}
+
+// VerifColumn describes the storage of one component column of one table.
+type VerifColumn struct {
+	ID       uint8
+	Pointer  unsafe.Pointer
+	ItemSize uint32
+	Cap      uint32
+	Len      uint32
+	Type     reflect.Type
+}
+
+// VerifColumns lists all component columns of all tables (active or not).
+func (w *World) VerifColumns() []VerifColumn {
+	cols := []VerifColumn{}
+	w.verifEachArch(func(_ int32, _ int32, a *archetype) {
+		if a.archetypeData == nil {
+			return
+		}
+		for i, id := range a.node.Ids {
+			lay := a.getLayout(id)
+			cols = append(cols, VerifColumn{ID: id.id, Pointer: lay.pointer, ItemSize: lay.itemSize, Cap: a.cap, Len: a.len, Type: a.node.Types[i]})
+		}
+	})
+	return cols
+}
+
+func (w *World) verifEachArch(f func(node int32, idx int32, a *archetype)) {
+	ln := w.nodes.Len()
+	for i := int32(0); i < ln; i++ {
+		nd := w.nodes.Get(i)
+		if nd.HasRelation {
+			for j := int32(0); j < nd.archetypes.Len(); j++ {
+				f(i, j, nd.archetypes.Get(j))
+			}
+		} else if nd.archetype != nil {
+			f(i, 0, nd.archetype)
+		}
+	}
+}
+
+type verifEnc struct {
+	b []byte
+}
+
+func (e *verifEnc) u(v uint64) {
+	e.b = binary.AppendUvarint(e.b, v)
+}
+func (e *verifEnc) i(v int64) {
+	e.b = binary.AppendVarint(e.b, v)
+}
+func (e *verifEnc) bool(v bool) {
+	if v {
+		e.b = append(e.b, 1)
+	} else {
+		e.b = append(e.b, 0)
+	}
+}
+func (e *verifEnc) tag(s string) {
+	e.b = append(e.b, s...)
+}
+func (e *verifEnc) mask(m *Mask) {
+	e.b = append(e.b, unsafe.Slice((*byte)(unsafe.Pointer(m)), int(unsafe.Sizeof(*m)))...)
+}
+func (e *verifEnc) ent(x Entity) {
+	e.u(uint64(x.id))
+	e.u(uint64(x.gen))
+}
+
+type verifArchRef struct {
+	node, idx int32
+}
+
+func (w *World) verifIndex() (map[*archNode]int32, map[*archetype]verifArchRef) {
+	nodeIdx := map[*archNode]int32{}
+	archIdx := map[*archetype]verifArchRef{}
+	ln := w.nodes.Len()
+	for i := int32(0); i < ln; i++ {
+		nodeIdx[w.nodes.Get(i)] = i
+	}
+	w.verifEachArch(func(n, j int32, a *archetype) {
+		archIdx[a] = verifArchRef{n, j}
+	})
+	return nodeIdx, archIdx
+}
+
+func verifHasPointers(tp reflect.Type) bool {
+	switch tp.Kind() {
+	case reflect.Bool,
+		reflect.Int, reflect.Int8, reflect.Int16, reflect.Int32, reflect.Int64,
+		reflect.Uint, reflect.Uint8, reflect.Uint16, reflect.Uint32, reflect.Uint64, reflect.Uintptr,
+		reflect.Float32, reflect.Float64, reflect.Complex64, reflect.Complex128:
+		return false
+	case reflect.Array:
+		return tp.Len() > 0 && verifHasPointers(tp.Elem())
+	case reflect.Struct:
+		for i := 0; i < tp.NumField(); i++ {
+			if verifHasPointers(tp.Field(i).Type) {
+				return true
+			}
+		}
+		return false
+	default:
+		return true
+	}
+}
+
+// Flags for VerifShape.
+const (
+	// VerifIdleLockPoolAbstract replaces the lock bit pool by the number of outstanding bits while no lock is held.
+	VerifIdleLockPoolAbstract = 1
+)
+
+// VerifShape appends a canonical, address-free dump of the complete world state to buf.
+//
+// Two worlds with equal dumps are in the same state up to renaming of memory addresses.
+// Columns of component types that contain pointers are dumped as zero/non-zero per row only.
+func (w *World) VerifShape(buf []byte, flags int) []byte {
+	e := verifEnc{b: buf}
+	nodeIdx, archIdx := w.verifIndex()
+	aref := func(a *archetype) {
+		if a == nil {
+			e.i(-1)
+			return
+		}
+		r, ok := archIdx[a]
+		if !ok {
+			e.i(-2)
+			return
+		}
+		e.i(int64(r.node))
+		e.i(int64(r.idx))
+	}
+	nref := func(n *archNode) {
+		if n == nil {
+			e.i(-1)
+			return
+		}
+		r, ok := nodeIdx[n]
+		if !ok {
+			e.i(-2)
+			return
+		}
+		e.i(int64(r))
+	}
+
+	e.tag("REG")
+	e.u(uint64(len(w.registry.Components)))
+	e.u(uint64(len(w.registry.IDs)))
+	e.mask(&w.registry.Used)
+	e.mask(&w.registry.IsRelation)
+	e.tag("CFG")
+	e.i(int64(w.config.CapacityIncrement))
+	e.i(int64(w.config.RelationCapacityIncrement))
+
+	e.tag("NODES")
+	ln := w.nodes.Len()
+	e.i(int64(ln))
+	e.i(int64(w.nodeData.Len()))
+	e.i(int64(w.archetypes.Len()))
+	e.i(int64(w.archetypeData.Len()))
+	for i := int32(0); i < ln; i++ {
+		nd := w.nodes.Get(i)
+		e.tag("N")
+		e.mask(&nd.Mask)
+		e.u(uint64(nd.Relation.id))
+		e.bool(nd.HasRelation)
+		e.bool(nd.IsActive)
+		e.u(uint64(len(nd.Ids)))
+		for _, id := range nd.Ids {
+			e.u(uint64(id.id))
+		}
+		e.u(uint64(nd.capacityIncrement))
+		e.u(uint64(len(nd.zeroValue)))
+		e.u(uint64(len(nd.freeIndices)))
+		for _, f := range nd.freeIndices {
+			e.i(int64(f))
+		}
+		// neighbours
+		e.mask(&nd.neighbors.used)
+		for id := 0; id < MaskTotalBits; id++ {
+			if n, ok := nd.neighbors.Get(uint8(id)); ok {
+				nref(n)
+			}
+		}
+		// target map
+		if nd.archetypeMap == nil {
+			e.i(-1)
+		} else {
+			type kv struct {
+				k Entity
+				v *archetype
+			}
+			kvs := make([]kv, 0, len(nd.archetypeMap))
+			for k, v := range nd.archetypeMap {
+				kvs = append(kvs, kv{k, v})
+			}
+			sort.Slice(kvs, func(a, b int) bool {
+				if kvs[a].k.id != kvs[b].k.id {
+					return kvs[a].k.id < kvs[b].k.id
+				}
+				return kvs[a].k.gen < kvs[b].k.gen
+			})
+			e.i(int64(len(kvs)))
+			for _, x := range kvs {
+				e.ent(x.k)
+				aref(x.v)
+			}
+		}
+		if nd.HasRelation {
+			e.i(int64(nd.archetypes.Len()))
+			e.i(int64(nd.archetypeData.Len()))
+		} else {
+			aref(nd.archetype)
+		}
+	}
+
+	e.tag("ARCH")
+	w.verifEachArch(func(n, j int32, a *archetype) {
+		e.tag("A")
+		e.i(int64(n))
+		e.i(int64(j))
+		if a.archetypeData == nil {
+			e.tag("uninit")
+			return
+		}
+		e.i(int64(a.index))
+		nref(a.node)
+		e.u(uint64(a.len))
+		e.u(uint64(a.cap))
+		e.mask(&a.Mask)
+		e.ent(a.RelationTarget)
+		e.u(uint64(a.RelationComponent.id))
+		e.bool(a.HasRelationComponent)
+		e.u(uint64(len(a.layouts)))
+		e.u(uint64(len(a.buffers)))
+		for r := uint32(0); r < a.len; r++ {
+			e.ent(a.GetEntity(r))
+		}
+		for id := 0; id < len(a.layouts); id++ {
+			lay := &a.layouts[id]
+			if lay.pointer == nil {
+				continue
+			}
+			e.u(uint64(id))
+			e.u(uint64(lay.itemSize))
+			bi, ok := a.indices.Get(uint8(id))
+			if !ok || int(bi) >= len(a.buffers) {
+				e.tag("noidx")
+				continue
+			}
+			buf := a.buffers[bi]
+			e.u(uint64(buf.Len()))
+			e.bool(lay.pointer == buf.Addr().UnsafePointer())
+			if lay.itemSize == 0 {
+				continue
+			}
+			n := int(lay.itemSize) * buf.Len()
+			raw := unsafe.Slice((*byte)(lay.pointer), n)
+			if verifHasPointers(buf.Type().Elem()) {
+				for r := 0; r < buf.Len(); r++ {
+					nz := false
+					for _, b := range raw[r*int(lay.itemSize) : (r+1)*int(lay.itemSize)] {
+						if b != 0 {
+							nz = true
+							break
+						}
+					}
+					e.bool(nz)
+				}
+			} else {
+				e.b = append(e.b, raw...)
+			}
+		}
+	})
+
+	e.tag("ENT")
+	e.u(uint64(len(w.entities)))
+	e.u(uint64(cap(w.entities)))
+	for i := range w.entities {
+		idx := &w.entities[i]
+		aref(idx.arch)
+		if idx.arch != nil {
+			e.u(uint64(idx.index))
+		}
+	}
+	e.tag("TGT")
+	e.u(uint64(len(w.targetEntities.data)))
+	for _, d := range w.targetEntities.data {
+		e.b = binary.LittleEndian.AppendUint64(e.b, d)
+	}
+	e.tag("POOL")
+	e.u(uint64(len(w.entityPool.entities)))
+	e.u(uint64(cap(w.entityPool.entities)))
+	for _, x := range w.entityPool.entities {
+		e.ent(x)
+	}
+	e.u(uint64(w.entityPool.next))
+	e.u(uint64(w.entityPool.available))
+	e.u(uint64(w.entityPool.capacityIncrement))
+
+	e.tag("LOCK")
+	e.mask(&w.locks.locks)
+	if flags&VerifIdleLockPoolAbstract != 0 && w.locks.locks.IsZero() {
+		// No lock is held: the pool is a free list of all bits handed out so far. Its order only decides
+		// which bit number the next lock gets; only the number of outstanding bits is kept.
+		e.i(int64(w.locks.bitPool.length) - int64(w.locks.bitPool.available))
+	} else {
+		e.u(uint64(w.locks.bitPool.length))
+		e.u(uint64(w.locks.bitPool.next))
+		e.u(uint64(w.locks.bitPool.available))
+		for i := 0; i < int(w.locks.bitPool.length) && i < len(w.locks.bitPool.bits); i++ {
+			e.u(uint64(w.locks.bitPool.bits[i]))
+		}
+	}
+
+	e.tag("NP")
+	e.u(uint64(len(w.nodePointers)))
+	for _, n := range w.nodePointers {
+		nref(n)
+	}
+	e.u(uint64(len(w.relationNodes)))
+	for _, n := range w.relationNodes {
+		nref(n)
+	}
+
+	e.tag("CACHE")
+	c := &w.filterCache
+	e.u(uint64(c.intPool.next))
+	e.u(uint64(c.intPool.available))
+	e.u(uint64(len(c.intPool.pool)))
+	for _, p := range c.intPool.pool {
+		e.u(uint64(p))
+	}
+	{
+		keys := make([]uint32, 0, len(c.indices))
+		for k := range c.indices {
+			keys = append(keys, k)
+		}
+		sort.Slice(keys, func(a, b int) bool { return keys[a] < keys[b] })
+		e.u(uint64(len(keys)))
+		for _, k := range keys {
+			e.u(uint64(k))
+			e.i(int64(c.indices[k]))
+		}
+	}
+	e.u(uint64(len(c.filters)))
+	for i := range c.filters {
+		f := &c.filters[i]
+		e.tag("F")
+		e.u(uint64(f.ID))
+		e.u(uint64(len(f.Archetypes.pointers)))
+		for _, a := range f.Archetypes.pointers {
+			aref(a)
+		}
+		if f.Indices == nil {
+			e.i(-1)
+		} else {
+			type kv struct {
+				r verifArchRef
+				v int
+			}
+			kvs := make([]kv, 0, len(f.Indices))
+			for k, v := range f.Indices {
+				r, ok := archIdx[k]
+				if !ok {
+					r = verifArchRef{-2, -2}
+				}
+				kvs = append(kvs, kv{r, v})
+			}
+			sort.Slice(kvs, func(a, b int) bool {
+				if kvs[a].r.node != kvs[b].r.node {
+					return kvs[a].r.node < kvs[b].r.node
+				}
+				if kvs[a].r.idx != kvs[b].r.idx {
+					return kvs[a].r.idx < kvs[b].r.idx
+				}
+				return kvs[a].v < kvs[b].v
+			})
+			e.i(int64(len(kvs)))
+			for _, x := range kvs {
+				e.i(int64(x.r.node))
+				e.i(int64(x.r.idx))
+				e.i(int64(x.v))
+			}
+		}
+	}
+
+	e.tag("RES")
+	e.u(uint64(len(w.resources.registry.Components)))
+	for i := range w.resources.resources {
+		if w.resources.resources[i] != nil {
+			e.u(uint64(i))
+		}
+	}
+	e.tag("END")
+	return e.b
+}
+
+// VerifShapeFields lists, per struct type, the fields that VerifShape covers (or deliberately ignores).
+// A self-test compares this against the struct definitions via reflection, so that a new field
+// can not silently be left out of the state key.
+func VerifShapeFields() map[string][]string {
+	return map[string][]string{
+		"World": {"listener:harness", "nodePointers", "entities", "targetEntities", "relationNodes", "filterCache",
+			"nodes", "archetypeData:via-archetypes", "nodeData:via-nodes", "archetypes", "entityPool", "stats:derived", "resources", "registry", "locks", "config"},
+		"archetype":       {"archetypeData", "node", "archetypeAccess", "len", "cap"},
+		"archetypeAccess": {"basePointer:address", "entityPointer:address", "Mask", "RelationTarget", "RelationComponent", "HasRelationComponent"},
+		"archetypeData":   {"entityBuffer", "layouts", "buffers", "indices:via-layouts", "index"},
+		"archNode":        {"nodeData", "Mask", "Relation", "HasRelation", "IsActive"},
+		"nodeData": {"archetype", "archetypeMap", "zeroPointer:address", "Types:via-Ids", "Ids", "freeIndices", "zeroValue",
+			"archetypes", "archetypeData:via-archetypes", "neighbors", "capacityIncrement"},
+		"Cache":             {"indices", "filters", "getArchetypes:callback", "intPool"},
+		"cacheEntry":        {"Filter:harness", "Indices", "Archetypes", "ID"},
+		"entityPool":        {"entities", "next", "available", "capacityIncrement"},
+		"bitPool":           {"length", "bits", "next", "available"},
+		"lockMask":          {"locks", "bitPool"},
+		"Resources":         {"resources", "registry"},
+		"componentRegistry": {"Components", "Types:harness", "IDs", "Used", "IsRelation"},
+		"entityIndex":       {"arch", "index"},
+	}
+}
+
+// VerifStructFields returns the actual field names of the internal struct types covered by VerifShape.
+func VerifStructFields() map[string][]string {
+	names := func(v interface{}) []string {
+		tp := reflect.TypeOf(v)
+		out := make([]string, tp.NumField())
+		for i := range out {
+			out[i] = tp.Field(i).Name
+		}
+		return out
+	}
+	return map[string][]string{
+		"World":             names(World{}),
+		"archetype":         names(archetype{}),
+		"archetypeAccess":   names(archetypeAccess{}),
+		"archetypeData":     names(archetypeData{}),
+		"archNode":          names(archNode{}),
+		"nodeData":          names(nodeData{}),
+		"Cache":             names(Cache{}),
+		"cacheEntry":        names(cacheEntry{}),
+		"entityPool":        names(entityPool{}),
+		"bitPool":           names(bitPool{}),
+		"lockMask":          names(lockMask{}),
+		"Resources":         names(Resources{}),
+		"componentRegistry": names(componentRegistry{}),
+		"entityIndex":       names(entityIndex{}),
+	}
+}
+
+// VerifCheckInvariants checks structural invariants of the world and returns the first violation found.
+func (w *World) VerifCheckInvariants() (err error) {
+	defer func() {
+		if r := recover(); r != nil {
+			err = fmt.Errorf("invariant check panicked: %v", r)
+		}
+	}()
+	nodeIdx, archIdx := w.verifIndex()
+	_ = nodeIdx
+	name := func(a *archetype) string {
+		r, ok := archIdx[a]
+		if !ok {
+			return "table(unknown)"
+		}
+		return fmt.Sprintf("table(node %d %v, idx %d, target %v)", r.node, w.nodes.Get(r.node).Ids, r.idx, a.RelationTarget)
+	}
+
+	// --- entity pool
+	p := &w.entityPool
+	n := len(p.entities)
+	if n < 1 {
+		return fmt.Errorf("pool: missing reserved zero entity")
+	}
+	aliveID := make([]bool, n)
+	for i := 1; i < n; i++ {
+		aliveID[i] = int(p.entities[i].id) == i
+	}
+	// free list
+	seen := map[eid]bool{}
+	cur := p.next
+	for k := uint32(0); k < p.available; k++ {
+		if int(cur) >= n || cur == 0 {
+			return fmt.Errorf("pool: free list leaves the pool after %d of %d links (at id %d)", k, p.available, cur)
+		}
+		if seen[cur] {
+			return fmt.Errorf("pool: free list visits id %d twice", cur)
+		}
+		if aliveID[cur] {
+			return fmt.Errorf("pool: free list visits alive id %d", cur)
+		}
+		seen[cur] = true
+		cur = p.entities[cur].id
+	}
+	dead := 0
+	for i := 1; i < n; i++ {
+		if !aliveID[i] {
+			dead++
+			if !seen[eid(i)] {
+				return fmt.Errorf("pool: dead id %d is not on the free list", i)
+			}
+		}
+	}
+	if dead != int(p.available) {
+		return fmt.Errorf("pool: %d dead ids but available=%d", dead, p.available)
+	}
+
+	// --- entity index <-> table rows
+	if len(w.entities) < n {
+		// the index may lag behind only for ids never used; all pool ids were issued at least once
+		return fmt.Errorf("entity index has %d entries but pool has %d", len(w.entities), n)
+	}
+	total := 0
+	var ferr error
+	w.verifEachArch(func(ni, j int32, a *archetype) {
+		if ferr != nil || a.archetypeData == nil {
+			return
+		}
+		nd := w.nodes.Get(ni)
+		if a.node != nd {
+			ferr = fmt.Errorf("%s: node pointer mismatch", name(a))
+			return
+		}
+		if a.Mask != nd.Mask {
+			ferr = fmt.Errorf("%s: mask differs from node mask", name(a))
+			return
+		}
+		if a.len > a.cap {
+			ferr = fmt.Errorf("%s: len %d > cap %d", name(a), a.len, a.cap)
+			return
+		}
+		if !a.IsActive() && a.len != 0 {
+			ferr = fmt.Errorf("%s: inactive but holds %d entities", name(a), a.len)
+			return
+		}
+		if int(a.cap) != a.entityBuffer.Len() {
+			ferr = fmt.Errorf("%s: cap %d but entity buffer %d", name(a), a.cap, a.entityBuffer.Len())
+			return
+		}
+		if a.entityPointer != a.entityBuffer.Addr().UnsafePointer() {
+			ferr = fmt.Errorf("%s: stale entity pointer", name(a))
+			return
+		}
+		if len(a.layouts) == 0 || a.basePointer != unsafe.Pointer(&a.layouts[0]) {
+			ferr = fmt.Errorf("%s: stale layouts base pointer", name(a))
+			return
+		}
+		need := capacityNonZero(w.registry.Count(), int(layoutChunkSize))
+		if a.IsActive() && len(a.layouts) < need && nd.IsActive {
+			ferr = fmt.Errorf("%s: %d layouts but %d component types registered", name(a), len(a.layouts), w.registry.Count())
+			return
+		}
+		total += int(a.len)
+		for r := uint32(0); r < a.len; r++ {
+			e := a.GetEntity(r)
+			if int(e.id) >= n || e.id == 0 || p.entities[e.id] != e {
+				ferr = fmt.Errorf("%s row %d holds %v which is not an alive entity", name(a), r, e)
+				return
+			}
+			idx := w.entities[e.id]
+			if idx.arch != a || idx.index != r {
+				ferr = fmt.Errorf("%s row %d holds %v but the entity index says %s row %d", name(a), r, e, name(idx.arch), idx.index)
+				return
+			}
+		}
+		for id := 0; id < len(a.layouts); id++ {
+			lay := &a.layouts[id]
+			has := a.Mask.Get(ID{id: uint8(id)})
+			if has != (lay.pointer != nil) {
+				ferr = fmt.Errorf("%s: layout for component %d present=%t but mask says %t", name(a), id, lay.pointer != nil, has)
+				return
+			}
+			if !has {
+				continue
+			}
+			bi, ok := a.indices.Get(uint8(id))
+			if !ok || int(bi) >= len(a.buffers) {
+				ferr = fmt.Errorf("%s: no buffer index for component %d", name(a), id)
+				return
+			}
+			buf := a.buffers[bi]
+			if lay.itemSize == 0 {
+				continue
+			}
+			if lay.pointer != buf.Addr().UnsafePointer() {
+				ferr = fmt.Errorf("%s: column %d points outside its buffer", name(a), id)
+				return
+			}
+			if buf.Len() != int(a.cap) {
+				ferr = fmt.Errorf("%s: column %d has %d rows but cap is %d", name(a), id, buf.Len(), a.cap)
+				return
+			}
+			raw := unsafe.Slice((*byte)(lay.pointer), int(lay.itemSize)*buf.Len())
+			for k := int(a.len) * int(lay.itemSize); k < len(raw); k++ {
+				if raw[k] != 0 {
+					ferr = fmt.Errorf("%s: column %d has non-zero bytes in unused row %d", name(a), id, k/int(lay.itemSize))
+					return
+				}
+			}
+		}
+	})
+	if ferr != nil {
+		return ferr
+	}
+	if total != p.Len() {
+		return fmt.Errorf("tables hold %d entities but the pool has %d alive", total, p.Len())
+	}
+	for i := 1; i < n; i++ {
+		idx := w.entities[i]
+		if aliveID[i] {
+			if idx.arch == nil {
+				return fmt.Errorf("alive entity id %d has no table", i)
+			}
+			if _, ok := archIdx[idx.arch]; !ok {
+				return fmt.Errorf("alive entity id %d points to an unknown table", i)
+			}
+			if !idx.arch.IsActive() || idx.index >= idx.arch.len || idx.arch.GetEntity(idx.index) != p.entities[i] {
+				return fmt.Errorf("alive entity %v: entity index says %s row %d, which does not hold it", p.entities[i], name(idx.arch), idx.index)
+			}
+		} else if idx.arch != nil {
+			return fmt.Errorf("dead entity id %d still has a table in the entity index", i)
+		}
+	}
+
+	// --- nodes
+	ln := w.nodes.Len()
+	for i := int32(0); i < ln; i++ {
+		nd := w.nodes.Get(i)
+		for j := int32(0); j < i; j++ {
+			if w.nodes.Get(j).Mask == nd.Mask {
+				return fmt.Errorf("nodes %d and %d have the same mask", j, i)
+			}
+		}
+		cnt := 0
+		for id := 0; id < MaskTotalBits; id++ {
+			if nd.Mask.Get(ID{id: uint8(id)}) {
+				if cnt >= len(nd.Ids) || nd.Ids[cnt].id != uint8(id) {
+					return fmt.Errorf("node %d: Ids %v do not match its mask", i, nd.Ids)
+				}
+				cnt++
+			}
+		}
+		if cnt != len(nd.Ids) {
+			return fmt.Errorf("node %d: Ids %v do not match its mask", i, nd.Ids)
+		}
+		rel := nd.Mask.And(&w.registry.IsRelation)
+		if nd.HasRelation != !rel.IsZero() {
+			return fmt.Errorf("node %d %v: HasRelation=%t but relation components in mask: %t", i, nd.Ids, nd.HasRelation, !rel.IsZero())
+		}
+		if nd.HasRelation && !rel.Get(nd.Relation) {
+			return fmt.Errorf("node %d %v: relation component %d not in mask", i, nd.Ids, nd.Relation.id)
+		}
+		if nd.HasRelation && rel.TotalBitsSet() != 1 {
+			return fmt.Errorf("node %d %v: more than one relation component", i, nd.Ids)
+		}
+		for id := 0; id < MaskTotalBits; id++ {
+			m, ok := nd.neighbors.Get(uint8(id))
+			if !ok {
+				continue
+			}
+			want := nd.Mask
+			want.Set(ID{id: uint8(id)}, !nd.Mask.Get(ID{id: uint8(id)}))
+			if m == nil || m.Mask != want {
+				return fmt.Errorf("node %d %v: edge for component %d leads to the wrong node", i, nd.Ids, id)
+			}
+			back, ok := m.neighbors.Get(uint8(id))
+			if !ok || back != nd {
+				return fmt.Errorf("node %d %v: edge for component %d has no matching back edge", i, nd.Ids, id)
+			}
+		}
+		if !nd.HasRelation {
+			if nd.IsActive != (nd.archetype != nil) {
+				return fmt.Errorf("node %d %v: active=%t but table present=%t", i, nd.Ids, nd.IsActive, nd.archetype != nil)
+			}
+			if nd.archetype != nil {
+				a := nd.archetype
+				if a.index < 0 || a.index >= w.archetypes.Len() || w.archetypes.Get(a.index) != a {
+					return fmt.Errorf("node %d %v: table index %d wrong", i, nd.Ids, a.index)
+				}
+			}
+			continue
+		}
+		// relation node
+		free := map[int32]int{}
+		for _, f := range nd.freeIndices {
+			if f < 0 || f >= nd.archetypes.Len() {
+				return fmt.Errorf("node %d %v: free list holds invalid table index %d", i, nd.Ids, f)
+			}
+			free[f]++
+			if free[f] > 1 {
+				return fmt.Errorf("node %d %v: free list holds table index %d twice", i, nd.Ids, f)
+			}
+		}
+		active := 0
+		for j := int32(0); j < nd.archetypes.Len(); j++ {
+			a := nd.archetypes.Get(j)
+			if a.IsActive() {
+				active++
+				if a.index != j {
+					return fmt.Errorf("node %d %v: table at %d says index %d", i, nd.Ids, j, a.index)
+				}
+				if free[j] > 0 {
+					return fmt.Errorf("node %d %v: active table %d is on the free list", i, nd.Ids, j)
+				}
+				if m, ok := nd.archetypeMap[a.RelationTarget]; !ok || m != a {
+					return fmt.Errorf("node %d %v: active table %d for target %v is not in the target map", i, nd.Ids, j, a.RelationTarget)
+				}
+			} else {
+				if free[j] != 1 {
+					return fmt.Errorf("node %d %v: inactive table %d is not on the free list", i, nd.Ids, j)
+				}
+			}
+		}
+		if active != len(nd.archetypeMap) {
+			return fmt.Errorf("node %d %v: %d active tables but %d targets mapped", i, nd.Ids, active, len(nd.archetypeMap))
+		}
+		if nd.IsActive != (nd.archetypes.Len() > 0) {
+			return fmt.Errorf("node %d %v: active=%t but %d tables", i, nd.Ids, nd.IsActive, nd.archetypes.Len())
+		}
+	}
+
+	// --- filter cache
+	c := &w.filterCache
+	if len(c.indices) != len(c.filters) {
+		return fmt.Errorf("cache: %d ids mapped but %d filters", len(c.indices), len(c.filters))
+	}
+	for i := range c.filters {
+		f := &c.filters[i]
+		if idx, ok := c.indices[f.ID]; !ok || idx != i {
+			return fmt.Errorf("cache: filter id %d at position %d is mapped to %d", f.ID, i, idx)
+		}
+		inList := map[*archetype]int{}
+		for k, a := range f.Archetypes.pointers {
+			if a == nil {
+				return fmt.Errorf("cache: filter id %d holds a nil table at %d", f.ID, k)
+			}
+			if _, ok := archIdx[a]; !ok {
+				return fmt.Errorf("cache: filter id %d holds an unknown table at %d", f.ID, k)
+			}
+			if _, dup := inList[a]; dup {
+				return fmt.Errorf("cache: filter id %d holds %s twice", f.ID, name(a))
+			}
+			inList[a] = k
+			if !a.IsActive() {
+				return fmt.Errorf("cache: filter id %d holds retired %s", f.ID, name(a))
+			}
+		}
+		rf, isRel := f.Filter.(*RelationFilter)
+		w.verifEachArch(func(_, _ int32, a *archetype) {
+			if ferr != nil || a.archetypeData == nil {
+				return
+			}
+			want := a.IsActive() && f.Filter.Matches(&a.Mask)
+			if want && isRel && a.HasRelationComponent && a.RelationTarget != rf.Target {
+				want = false
+			}
+			if want && isRel && !a.HasRelationComponent {
+				// relation filter over tables without relation component: only listed for the zero target
+				// (the uncached path never lists them). Not asserted either way.
+				return
+			}
+			_, have := inList[a]
+			if want != have {
+				ferr = fmt.Errorf("cache: filter id %d lists %s: %t, but it should: %t", f.ID, name(a), have, want)
+			}
+		})
+		if ferr != nil {
+			return ferr
+		}
+		if f.Indices != nil {
+			for a, k := range f.Indices {
+				if pos, ok := inList[a]; !ok || pos != k {
+					return fmt.Errorf("cache: filter id %d index map says %s at %d, list says %d (present %t)", f.ID, name(a), k, pos, ok)
+				}
+			}
+			for a, k := range inList {
+				if a.HasRelation() {
+					if pos, ok := f.Indices[a]; !ok || pos != k {
+						return fmt.Errorf("cache: filter id %d lists %s at %d but its index map has %d (present %t)", f.ID, name(a), k, pos, ok)
+					}
+				}
+			}
+		}
+	}
+	return nil
+}
